@@ -12,16 +12,17 @@ variable (c : Cfg) (rd : Bool)
 structure DInv (s : XbDir) (g : Fifo) (dg : DGhost) : Prop where
   aheadq : ∀ i, i < c.n → dg.ahead i ≠ none → dg.wq i = []
   wq_lt  : ∀ i, i < c.n → ∀ e ∈ dg.wq i, e < c.m
-  ah_lt  : ∀ i, i < c.n → ∀ k, dg.ahead i = some k → k < c.m
-  own    : ∀ i j, i < c.n → j < c.m → (arb s j).grant ≠ i → (dg.wq i).count j = 0 ∧ dg.ahead i ≠ some j
-  bal    : ∀ j, j < c.m → (g j).length + (if dg.ahead (arb s j).grant = some j then 1 else 0)
+  ah_lt  : ∀ i, i < c.n → ∀ k b, dg.ahead i = some (k, b) → k < c.m
+  own    : ∀ i j, i < c.n → j < c.m → (arb s j).grant ≠ i →
+             (dg.wq i).count j = 0 ∧ ∀ b, dg.ahead i ≠ some (j, b)
+  bal    : ∀ j, j < c.m → (g j).length + (if dg.ahead (arb s j).grant = some (j, true) then 1 else 0)
                             = (dg.wq (arb s j).grant).count j + dg.sd j
 
 theorem dinv_reset : DInv c (init c rd) Fifo.empty DGhost.empty := by
   refine ⟨fun _ _ _ => rfl, ?_, ?_, ?_, ?_⟩
   · intro i _ e he; cases he
-  · intro i _ k hk; cases hk
-  · intro i j _ _ _; exact ⟨rfl, by intro h; cases h⟩
+  · intro i _ k b hk; cases hk
+  · intro i j _ _ _; exact ⟨rfl, by intro b h; cases h⟩
   · intro j _; rfl
 
 set_option linter.unusedSectionVars false
@@ -87,15 +88,15 @@ theorem wq_entry (i e : Nat) (hi : i < c.n) (he : e ∈ dg.wq i) :
 
 /-- Data that went ahead: the master presents an address of that slave, its select points there, and the slave's
     arbiter points at the master. -/
-theorem ahead_entry (i k : Nat) (hi : i < c.n) (hk : dg.ahead i = some k) :
+theorem ahead_entry (i k : Nat) (b : Bool) (hi : i < c.n) (hk : dg.ahead i = some (k, b)) :
     k < c.m ∧ (arb s k).grant = i ∧ (x.ms i).aValid = true ∧
     (∀ j, j < c.m → selI c rd s x i j = (j == k)) := by
-  have hkm := hdinv.ah_lt i hi k hk
+  have hkm := hdinv.ah_lt i hi k b hk
   have hgk : (arb s k).grant = i := by
     by_cases h : (arb s k).grant = i
     · exact h
-    · exact absurd hk (hdinv.own i k hi hkm h).2
-  obtain ⟨hv, hr⟩ := denv.addrHeld i k hi hk
+    · exact absurd hk ((hdinv.own i k hi hkm h).2 b)
+  obtain ⟨hv, hr⟩ := denv.addrHeld i k b hi hk
   refine ⟨hkm, hgk, hv, ?_⟩
   rcases sel_cases c rd hd s g x hinv env i hi with ⟨L, hL, hsel⟩ | hnone
   · have hsL : selI c rd s x i L = true := by rw [hsel L hL]; simp
@@ -171,11 +172,12 @@ theorem data_ok : DataOK c dg x (out c rd s x) := by
 /-- Master `i` whose select is one-hot at `L`: its scoreboard entries before and after the edge. -/
 theorem master_some (i L : Nat) (hi : i < c.n) (hL : L < c.m)
     (hsel : ∀ j, j < c.m → selI c rd s x i j = (j == L)) :
-    ∃ q q' a', dg.wq i = List.replicate q L ∧ (∀ k, dg.ahead i = some k → k = L) ∧
+    ∃ q q' a', dg.wq i = List.replicate q L ∧ (∀ k b, dg.ahead i = some (k, b) → k = L) ∧
       (dgNext c rd dg x (out c rd s x)).wq i = List.replicate q' L ∧
-      (dgNext c rd dg x (out c rd s x)).ahead i = a' ∧ (∀ k, a' = some k → k = L) ∧ (a' ≠ none → q' = 0) ∧
-      q' + (if dg.ahead i = some L then 1 else 0) + (if mDat x (out c rd s x) i then 1 else 0)
-        = q + (if a' = some L then 1 else 0) + (if mReq x (out c rd s x) i then 1 else 0) := by
+      (dgNext c rd dg x (out c rd s x)).ahead i = a' ∧ (∀ k b, a' = some (k, b) → k = L) ∧ (a' ≠ none → q' = 0) ∧
+      q' + (if dg.ahead i = some (L, true) then 1 else 0) +
+          (if mDat x (out c rd s x) i && c.wlast (x.ms i).dPay then 1 else 0)
+        = q + (if a' = some (L, true) then 1 else 0) + (if mReq x (out c rd s x) i then 1 else 0) := by
   have hwqL : ∀ e ∈ dg.wq i, e = L := by
     intro e he
     obtain ⟨hem, _, _, _, hKi, hR⟩ := wq_entry c hd s g dg x hinv hdinv env denv i e hi he
@@ -185,9 +187,9 @@ theorem master_some (i L : Nat) (hi : i < c.n) (hL : L < c.m)
     simpa using this.symm
   obtain ⟨q, hq⟩ : ∃ q, dg.wq i = List.replicate q L :=
     ⟨(dg.wq i).length, List.eq_replicate_iff.mpr ⟨rfl, hwqL⟩⟩
-  have hahL : ∀ k, dg.ahead i = some k → k = L := by
-    intro k hk
-    obtain ⟨hkm, _, _, hselk⟩ := ahead_entry c rd hd s g dg x hinv hdinv env denv i k hi hk
+  have hahL : ∀ k b, dg.ahead i = some (k, b) → k = L := by
+    intro k b hk
+    obtain ⟨hkm, _, _, hselk⟩ := ahead_entry c rd hd s g dg x hinv hdinv env denv i k b hi hk
     have := hsel k hkm
     rw [hselk k hkm] at this
     simpa using this
@@ -210,58 +212,24 @@ theorem master_some (i L : Nat) (hi : i < c.n) (hL : L < c.m)
     intro h
     obtain ⟨_, _, _, hv, _⟩ := mDat_elim c rd hd s g dg x hinv hdinv env denv i hi h
     exact hv
-  refine ⟨q, ?_⟩
-  rw [dgNext_wq, dgNext_ahead, hq]
-  cases hrq : mReq x (out c rd s x) i <;> cases hdt : mDat x (out c rd s x) i
-  · exact ⟨q, dg.ahead i, rfl, hahL, (by simp), (by simp), hahL, hq0_of_ah, (by simp)⟩
-  · have hdv := hdtv hdt
-    cases q with
-    | zero =>
-      rcases denv.dataAfterAddr i hi hdv with h | h
-      · rw [hq] at h; exact absurd rfl h
-      · refine ⟨0, some L, rfl, hahL, (by simp), ?_, (by intro k hk; exact (Option.some.inj hk).symm),
-          (by intro _; rfl), ?_⟩
-        · simp [hslave h.1]
-        · rw [h.2]; simp
-    | succ q =>
-      have hnone : dg.ahead i = none := by
-        cases h : dg.ahead i with
-        | none => rfl
-        | some k => exact absurd (hq0_of_ah (by rw [h]; simp)) (by simp)
-      refine ⟨q, none, rfl, hahL, (by simp [List.replicate_succ]), (by simp [List.replicate_succ, hnone]),
-        (by intro k hk; cases hk), (by intro h; exact absurd rfl h), ?_⟩
-      rw [hnone]; simp
-  · have hv := hrqv hrq
-    cases hahv : dg.ahead i with
-    | none =>
-      refine ⟨q + 1, none, rfl, (by intro k hk; cases hk), ?_, (by simp), (by intro k hk; cases hk),
-        (by intro h; exact absurd rfl h), ?_⟩
-      · simp [hslave hv, List.replicate_succ']
-      · simp
-    | some k =>
-      have hkL := hahL k hahv
-      subst hkL
-      have hq0 := hq0_of_ah (by rw [hahv]; simp)
-      subst hq0
-      refine ⟨0, none, rfl, (by intro k' hk'; exact (Option.some.inj hk').symm), (by simp), (by simp),
-        (by intro k hk; cases hk), (by intro h; exact absurd rfl h), ?_⟩
-      simp
-  · have hv := hrqv hrq
-    have hdv := hdtv hdt
-    cases hahv : dg.ahead i with
-    | none =>
-      refine ⟨q, none, rfl, (by intro k hk; cases hk), ?_, ?_, (by intro k hk; cases hk),
-        (by intro h; exact absurd rfl h), ?_⟩
-      · simp [hslave hv]
-        rw [← List.replicate_succ']; simp [List.replicate_succ]
-      · simp [hslave hv]
-      · simp
-    | some k =>
-      exfalso
-      have hq0 := hq0_of_ah (by rw [hahv]; simp)
-      rcases denv.dataAfterAddr i hi hdv with h | h
-      · rw [hq, hq0] at h; exact h rfl
-      · rw [hahv] at h; cases h.2
+  obtain ⟨q', a', h1, h2, h3, h4, h5⟩ := master_update q L (dg.ahead i) (mReq x (out c rd s x) i)
+    (mDat x (out c rd s x) i) (c.wlast (x.ms i).dPay) (slaveOf c (x.ms i).aAddr) hahL hq0_of_ah
+    (by
+      intro hdt
+      rcases denv.dataAfterAddr i hi (hdtv hdt) with h | h
+      · left; intro h0; rw [hq, h0] at h; exact h rfl
+      · exact Or.inr h.2)
+    (by
+      intro h
+      apply hslave
+      rcases h with h | ⟨h1, h2⟩
+      · exact hrqv h
+      · rcases denv.dataAfterAddr i hi (hdtv h1) with h | h
+        · rw [hq, h2] at h; exact absurd rfl h
+        · exact h.1)
+  refine ⟨q, q', a', hq, hahL, ?_, ?_, h3, h4, h5⟩
+  · rw [dgNext_wq, hq]; exact h1
+  · rw [dgNext_ahead, hq]; exact h2
 
 /-- Master `i` with no slave selected: nothing pending, nothing happens. -/
 theorem master_none (i : Nat) (hi : i < c.n) (hnone : ∀ j, j < c.m → selI c rd s x i j = false) :
@@ -283,51 +251,40 @@ theorem master_none (i : Nat) (hi : i < c.n) (hnone : ∀ j, j < c.m → selI c 
     | none => rfl
     | some k =>
       exfalso
-      obtain ⟨hkm, _, _, hselk⟩ := ahead_entry c rd hd s g dg x hinv hdinv env denv i k hi h
-      have := hnone k hkm
-      rw [hselk k hkm] at this
+      obtain ⟨hkm, _, _, hselk⟩ := ahead_entry c rd hd s g dg x hinv hdinv env denv i k.1 k.2 hi h
+      have := hnone k.1 hkm
+      rw [hselk k.1 hkm] at this
       simp at this
   have hrq : mReq x (out c rd s x) i = false := by
     unfold mReq; rw [toM_none c rd s x i hnone]; simp
   have hdt : mDat x (out c rd s x) i = false := by
     unfold mDat; rw [toM_none c rd s x i hnone]; simp
-  refine ⟨hw, ha, ?_, ?_⟩
-  · rw [dgNext_wq, hrq, hdt, hw]; simp
-  · rw [dgNext_ahead, hrq, hdt, ha]; simp
+  obtain ⟨e1, e2⟩ := dgNext_idle c rd dg x _ i hrq hdt
+  exact ⟨hw, ha, by rw [e1, hw], by rw [e2, ha]⟩
 
 /-- A master with nothing at slave `j` and no event there has nothing at `j` after the edge. -/
 theorem master_at (i j : Nat) (hi : i < c.n) (hj : j < c.m)
-    (h0 : (dg.wq i).count j = 0) (ha : dg.ahead i ≠ some j)
+    (h0 : (dg.wq i).count j = 0) (ha : ∀ b, dg.ahead i ≠ some (j, b))
     (hne : selI c rd s x i j = true → mReq x (out c rd s x) i = false ∧ mDat x (out c rd s x) i = false) :
-    ((dgNext c rd dg x (out c rd s x)).wq i).count j = 0 ∧ (dgNext c rd dg x (out c rd s x)).ahead i ≠ some j := by
+    ((dgNext c rd dg x (out c rd s x)).wq i).count j = 0 ∧
+    ∀ b, (dgNext c rd dg x (out c rd s x)).ahead i ≠ some (j, b) := by
   rcases sel_cases c rd hd s g x hinv env i hi with ⟨L, hL, hsel⟩ | hnone
-  · obtain ⟨q, q', a', hq, _, hq', ha', haL', haq', heq⟩ :=
-      master_some c rd hd s g dg x hinv hdinv env denv i L hi hL hsel
-    rw [hq', ha']
-    by_cases hjl : L = j
+  · by_cases hjl : L = j
     · subst hjl
       have hs : selI c rd s x i L = true := by rw [hsel L hL]; simp
       obtain ⟨h1, h2⟩ := hne hs
-      rw [hq, count_replicate_self] at h0
-      rw [h1, h2, h0] at heq
-      have hold : (if dg.ahead i = some L then 1 else 0) = 0 := by simp [ha]
-      rw [hold] at heq
-      have hna : a' ≠ some L := by
-        intro h
-        have := haq' (by rw [h]; simp)
-        rw [this, h] at heq
-        simp at heq
-      have : (if a' = some L then 1 else 0) = 0 := by simp [hna]
-      rw [this] at heq
-      simp at heq
-      rw [heq]
-      exact ⟨rfl, hna⟩
-    · refine ⟨count_replicate_ne q' L j (fun e => hjl e.symm), ?_⟩
-      intro h
-      exact hjl (haL' j h).symm
+      obtain ⟨e1, e2⟩ := dgNext_idle c rd dg x _ i h1 h2
+      rw [e1, e2]
+      exact ⟨h0, ha⟩
+    · obtain ⟨q, q', a', hq, _, hq', ha', haL', haq', heq⟩ :=
+        master_some c rd hd s g dg x hinv hdinv env denv i L hi hL hsel
+      rw [hq', ha']
+      refine ⟨count_replicate_ne q' L j (fun e => hjl e.symm), ?_⟩
+      intro b h
+      exact hjl (haL' j b h).symm
   · obtain ⟨_, _, hw', ha'⟩ := master_none c rd hd s g dg x hinv hdinv env denv i hi hnone
     rw [hw', ha']
-    exact ⟨rfl, by intro h; cases h⟩
+    exact ⟨rfl, by intro b h; cases h⟩
 
 /-- An event of master `i` at slave `j` needs slave `j`'s arbiter to point at `i`. -/
 theorem event_owner (i j : Nat) (hi : i < c.n) (hj : j < c.m) (hs : selI c rd s x i j = true)
@@ -348,7 +305,7 @@ theorem slave_sizes (j : Nat) (hj : j < c.m) :
     (fifoNext c rd g x (out c rd s x) j).length + (if sDone (c.gated rd) x (out c rd s x) j then 1 else 0)
       = (g j).length + (if sReq x (out c rd s x) j then 1 else 0) ∧
     (dgNext c rd dg x (out c rd s x)).sd j + (if sDone (c.gated rd) x (out c rd s x) j then 1 else 0)
-      = dg.sd j + (if sDat x (out c rd s x) j then 1 else 0) := by
+      = dg.sd j + (if sDat x (out c rd s x) j && c.wlast ((out c rd s x).toS j).dPay then 1 else 0) := by
   have hrs : sDone (c.gated rd) x (out c rd s x) j = true → 0 < (g j).length ∧ 0 < dg.sd j := by
     intro h
     have hv : (x.ss j).rValid = true := by
@@ -368,7 +325,8 @@ theorem slave_sizes (j : Nat) (hj : j < c.m) :
     cases hdn : sDone (c.gated rd) x (out c rd s x) j
     · simp
     · have hpos := (hrs hdn).2
-      simp; omega
+      simp only [if_true]
+      omega
 
 /-- Slave `j` is *active* when its arbiter cannot hand over. -/
 def Active (j : Nat) : Prop :=
@@ -382,7 +340,7 @@ theorem active_frozen (j : Nat) (hj : j < c.m) (h : Active c rd s x j) :
 
 /-- A slave that is not active: nobody has anything there and nothing happens there. -/
 theorem quiet (j : Nat) (hj : j < c.m) (h : ¬ Active c rd s x j) :
-    (∀ i, i < c.n → (dg.wq i).count j = 0 ∧ dg.ahead i ≠ some j) ∧ g j = [] ∧ dg.sd j = 0 ∧
+    (∀ i, i < c.n → (dg.wq i).count j = 0 ∧ ∀ b, dg.ahead i ≠ some (j, b)) ∧ g j = [] ∧ dg.sd j = 0 ∧
     (∀ i, i < c.n → selI c rd s x i j = true →
         mReq x (out c rd s x) i = false ∧ mDat x (out c rd s x) i = false) ∧
     sReq x (out c rd s x) j = false ∧ sDat x (out c rd s x) j = false ∧
@@ -406,19 +364,19 @@ theorem quiet (j : Nat) (hj : j < c.m) (h : ¬ Active c rd s x j) :
   have hgi := (hinv.arbs j hj).1
   have hgj : g j = [] := by rw [(hinv.arbs j hj).2.2, hK]; rfl
   -- the owner has no data ahead at `j`: it would be presenting an address there
-  have hown_ah : dg.ahead (arb s j).grant ≠ some j := by
-    intro hk
-    obtain ⟨_, _, hv, hselk⟩ := ahead_entry c rd hd s g dg x hinv hdinv env denv _ j hgi hk
+  have hown_ah : ∀ b, dg.ahead (arb s j).grant ≠ some (j, b) := by
+    intro b hk
+    obtain ⟨_, _, hv, hselk⟩ := ahead_entry c rd hd s g dg x hinv hdinv env denv _ j b hgi hk
     have : (accMS c rd s x (arb s j).grant j).aValid = true := by
       show ((x.ms (arb s j).grant).aValid && selI c rd s x (arb s j).grant j) = true
       rw [hv, hselk j hj]; simp
     rw [hav] at this; cases this
   have hb := hdinv.bal j hj
   rw [hgj] at hb
-  have hz : (if dg.ahead (arb s j).grant = some j then 1 else 0) = 0 := by simp [hown_ah]
+  have hz : (if dg.ahead (arb s j).grant = some (j, true) then 1 else 0) = 0 := by simp [hown_ah true]
   rw [hz] at hb
   simp at hb
-  have hall : ∀ i, i < c.n → (dg.wq i).count j = 0 ∧ dg.ahead i ≠ some j := by
+  have hall : ∀ i, i < c.n → (dg.wq i).count j = 0 ∧ ∀ b, dg.ahead i ≠ some (j, b) := by
     intro i hi
     by_cases e : (arb s j).grant = i
     · subst e; exact ⟨by omega, hown_ah⟩
@@ -468,11 +426,11 @@ theorem dinv_next :
       rw [hq'] at he
       rw [(List.mem_replicate.mp he).2]; exact hL
     · rw [(master_none c rd hd s g dg x hinv hdinv env denv i hi hnone).2.2.1] at he; cases he
-  · intro i hi k hk
+  · intro i hi k b hk
     rcases sel_cases c rd hd s g x hinv env i hi with ⟨L, hL, hsel⟩ | hnone
     · obtain ⟨q, q', a', _, _, _, ha', haL', _⟩ := master_some c rd hd s g dg x hinv hdinv env denv i L hi hL hsel
       rw [ha'] at hk
-      rw [haL' k hk]; exact hL
+      rw [haL' k b hk]; exact hL
     · rw [(master_none c rd hd s g dg x hinv hdinv env denv i hi hnone).2.2.2] at hk; cases hk
   · intro i j hi hj hne
     by_cases hact : Active c rd s x j
@@ -497,11 +455,11 @@ theorem dinv_next :
       have hb := hdinv.bal j hj
       -- the case "the owner's select does not point at j": nothing happens at j
       have hno : selI c rd s x (arb s j).grant j = false →
-          (dg.wq (arb s j).grant).count j = 0 → dg.ahead (arb s j).grant ≠ some j →
+          (dg.wq (arb s j).grant).count j = 0 → (∀ b, dg.ahead (arb s j).grant ≠ some (j, b)) →
           ((dgNext c rd dg x (out c rd s x)).wq (arb s j).grant).count j = 0 →
-          (dgNext c rd dg x (out c rd s x)).ahead (arb s j).grant ≠ some j →
+          (∀ b, (dgNext c rd dg x (out c rd s x)).ahead (arb s j).grant ≠ some (j, b)) →
           (fifoNext c rd g x (out c rd s x) j).length +
-              (if (dgNext c rd dg x (out c rd s x)).ahead (arb s j).grant = some j then 1 else 0)
+              (if (dgNext c rd dg x (out c rd s x)).ahead (arb s j).grant = some (j, true) then 1 else 0)
             = ((dgNext c rd dg x (out c rd s x)).wq (arb s j).grant).count j +
               (dgNext c rd dg x (out c rd s x)).sd j := by
         intro hsf h0 ha h0' ha'
@@ -512,12 +470,12 @@ theorem dinv_next :
         rw [e1, e3] at hlen
         rw [e2, e3] at hsd
         rw [h0] at hb
-        have z1 : (if dg.ahead (arb s j).grant = some j then 1 else 0) = 0 := by simp [ha]
-        have z2 : (if (dgNext c rd dg x (out c rd s x)).ahead (arb s j).grant = some j then 1 else 0) = 0 := by
-          simp [ha']
+        have z1 : (if dg.ahead (arb s j).grant = some (j, true) then 1 else 0) = 0 := by simp [ha true]
+        have z2 : (if (dgNext c rd dg x (out c rd s x)).ahead (arb s j).grant = some (j, true) then 1 else 0) = 0 := by
+          simp [ha' true]
         rw [z1] at hb
         rw [z2, h0']
-        simp at hlen hsd hb ⊢
+        simp only [Bool.false_and, Bool.false_eq_true, if_false, Nat.add_zero] at hlen hsd hb ⊢
         omega
       rcases sel_cases c rd hd s g x hinv env _ hi with ⟨L, hL, hsel⟩ | hnone
       · obtain ⟨q, q', a', hq, hahL, hq', ha', haL', haq', heq⟩ :=
@@ -535,24 +493,25 @@ theorem dinv_next :
             unfold mDat
             rw [toM_some c rd s x _ L hL hsel]
             simp [Arb.toM]
+          have e3 : ((out c rd s x).toS L).dPay = (x.ms (arb s L).grant).dPay := rfl
           rw [hq, count_replicate_self] at hb
           rw [hq', ha', count_replicate_self]
           rw [e1] at hlen
-          rw [e2] at hsd
+          rw [e2, e3] at hsd
           omega
         · have hsf : selI c rd s x (arb s j).grant j = false := by
             rw [hsel j hj]; simpa using fun e => hjl e.symm
           apply hno hsf
           · rw [hq]; exact count_replicate_ne q L j (fun e => hjl e.symm)
-          · intro h; exact hjl (hahL j h).symm
+          · intro b h; exact hjl (hahL j b h).symm
           · rw [hq']; exact count_replicate_ne q' L j (fun e => hjl e.symm)
-          · rw [ha']; intro h; exact hjl (haL' j h).symm
+          · rw [ha']; intro b h; exact hjl (haL' j b h).symm
       · obtain ⟨hw, ha, hw', ha'⟩ := master_none c rd hd s g dg x hinv hdinv env denv _ hi hnone
         apply hno (hnone j hj)
         · rw [hw]; rfl
-        · rw [ha]; intro h; cases h
+        · rw [ha]; intro b h; cases h
         · rw [hw']; rfl
-        · rw [ha']; intro h; cases h
+        · rw [ha']; intro b h; cases h
     · obtain ⟨hall, hgj, hsd0, hnoev, e1, e2, e3⟩ := quiet c rd hd s g dg x hinv hdinv env denv j hj hact
       have hi' : (arb (next c rd s x) j).grant < c.n := by
         rw [arb_next c rd hd s g x hinv env j hj]
@@ -561,10 +520,10 @@ theorem dinv_next :
         (hall _ hi').1 (hall _ hi').2 (hnoev _ hi')
       rw [e1, e3, hgj] at hlen
       rw [e2, e3, hsd0] at hsd
-      have z : (if (dgNext c rd dg x (out c rd s x)).ahead (arb (next c rd s x) j).grant = some j then 1 else 0) = 0 := by
-        simp [ha']
+      have z : (if (dgNext c rd dg x (out c rd s x)).ahead (arb (next c rd s x) j).grant = some (j, true) then 1 else 0) = 0 := by
+        simp [ha' true]
       rw [z, h0']
-      simp only [Bool.false_eq_true, if_false, Nat.add_zero, List.length_nil] at hlen hsd
+      simp only [Bool.false_and, Bool.false_eq_true, if_false, Nat.add_zero, List.length_nil] at hlen hsd
       omega
 
 end dstep
